@@ -1,0 +1,113 @@
+//go:build verif
+
+package ics20
+
+// Contracts for the deductive checker in /verif (comment-only; compiled only with -tags verif).
+// C05-run (agent AA): the entry points of the ICS-20 precompile - Run (dispatch, entry conditions of the method contracts, write
+// protection, flush, gas charging), IsTransaction, RequiredGas. The method contracts (tags c04, c04ap, c16d) are USED here.
+
+/*@
+specfunc IcsIsTx(n string) bool = n == "approve" || n == "revoke" || n == "increaseAllowance" || n == "decreaseAllowance" || n == "transfer"
+specfunc IcsIsQuery(n string) bool = n == "denomTrace" || n == "denomTraces" || n == "denomHash" || n == "allowance"
+
+// C05 / C04: every method whose contract changes state (`modifies cstate` / the grant store) must be classified as a transaction,
+// otherwise it runs in read-only frames (STATICCALL) - one clause per such method, so that a missing case is named
+func (Precompile).IsTransaction
+    ensures c05_approve: method == "approve" ==> result
+    ensures c05_revoke: method == "revoke" ==> result
+    ensures c05_increaseAllowance: method == "increaseAllowance" ==> result
+    ensures c05_decreaseAllowance: method == "decreaseAllowance" ==> result
+    ensures c05_transfer: method == "transfer" ==> result
+    ensures exact: result == IcsIsTx(method)
+
+// RequiredGas (called by vm.runPrecompiledContract with the raw call data, before Run). FINDING AA1: `input[:4]` panics on call data
+// shorter than four bytes - nothing at the call site guarantees them
+func (Precompile).RequiredGas
+    requires golen: 0 <= len(input) && len(input) <= 9223372036854775807
+    ensures unknown: ret(MethodById, 1, 1) != nil ==> result == 0
+    ensures tx: ret(MethodById, 1, 1) == nil && IcsIsTx(ret(MethodById, 1, 0).Name) ==> result == p.KvGasConfig.WriteCostFlat + p.KvGasConfig.WriteCostPerByte * (len(input) - 4)
+    ensures query: ret(MethodById, 1, 1) == nil && !IcsIsTx(ret(MethodById, 1, 0).Name) ==> result == p.KvGasConfig.ReadCostFlat + p.KvGasConfig.ReadCostPerByte * (len(input) - 4)
+
+// every method consumes SDK gas on the meter of the context it is given (a larger frame: nothing to re-verify)
+extend func (Precompile).Approve
+    modifies gasw
+extend func (Precompile).Revoke
+    modifies gasw
+extend func (Precompile).IncreaseAllowance
+    modifies gasw
+extend func (Precompile).DecreaseAllowance
+    modifies gasw
+extend func (Precompile).Transfer
+    modifies gasw
+extend func (Precompile).DenomTrace
+    modifies gasw
+extend func (Precompile).DenomTraces
+    modifies gasw
+extend func (Precompile).DenomHash
+    modifies gasw
+// (Precompile).Allowance has no contract in any tag: ASSUMED effect-free in specs/c05r/62_ics20_allowance.spec (not verified)
+
+// ---- Run. Preconditions: facts of the call chain vm.EVM.Call / CallCode / DelegateCall / StaticCall -> runPrecompiledContract -> Run,
+// of NewPrecompile (keepers set) and of the embedded abi.json. `value`: see FINDING AA2 (RunSetup).
+func (Precompile).Run
+    requires wf: evm != nil && contract != nil && p.stakingKeeper.Keeper != nil && p.transferKeeper.Keeper != nil
+    requires sdb: isdyn(evm.StateDB, *SDB) ==> dyn(evm.StateDB, *SDB) != nil && ctx_height(dyn(evm.StateDB, *SDB).ctx) >= 0
+    requires golen: len(contract.Input) >= 0
+    requires value: len(contract.Input) == 0 ==> contract.value != nil
+    requires abi_events: len(p.ABI.Events["IBCTransferAuthorization"].Inputs) == 3 && len(p.ABI.Events["IBCTransfer"].Inputs) == 7
+    requires abi_inputs: len(p.ABI.Methods["transfer"].Inputs) == 9 && len(p.ABI.Methods["approve"].Inputs) == 2
+    // increaseAllowance / decreaseAllowance(address, string, string, string, uint256): the fifth input is unsigned (abi.UintTy == 1)
+    requires abi_uint: len(p.ABI.Methods["increaseAllowance"].Inputs) == 5 && p.ABI.Methods["increaseAllowance"].Inputs[4].Type.T == 1 && len(p.ABI.Methods["decreaseAllowance"].Inputs) == 5 && p.ABI.Methods["decreaseAllowance"].Inputs[4].Type.T == 1
+    requires abi_plain: p.ABI.Fallback.Type != 1 && p.ABI.Receive.Type != 2
+    let sdb = dyn(evm.StateDB, *SDB)
+    let setup_ok = ret(RunSetup, 1, 5) == nil
+    let rctx = ret(RunSetup, 1, 0)
+    let m = ret(RunSetup, 1, 2)
+    let name = ret(RunSetup, 1, 2).Name
+    let gas0 = ret(RunSetup, 1, 3)
+    let rargs = ret(RunSetup, 1, 4)
+    let meter = ctx_gasmeter(rctx)
+    let caller = old(contract.CallerAddress)
+    let flushed = sdb_flush(old(cstate), sdb_pending)
+    modifies cstate, g_kind, g_exp, g_limited, g_limit, g_ta, sdb_delta, gasw, gas_base, bank_bal, bank_supply, sdb_flushes, *contract
+    call HandleGasError requires site: contract != nil && err != nil && gas_consumed(ctx_gasmeter(ctx)) >= initialGas
+    // (e) the pending StateDB changes are written to the store once, before the method runs
+    call Commit requires once: s == sdb && sdb_flushes == old(sdb_flushes) && cstate == old(cstate)
+    // (a) dispatch: a method runs only under its own name
+    call Precompile.Approve requires named: method.Name == "approve"
+    call Precompile.Revoke requires named: method.Name == "revoke"
+    call Precompile.IncreaseAllowance requires named: method.Name == "increaseAllowance"
+    call Precompile.DecreaseAllowance requires named: method.Name == "decreaseAllowance"
+    call Precompile.Transfer requires named: method.Name == "transfer"
+    call Precompile.DenomTrace requires named: method.Name == "denomTrace"
+    call Precompile.DenomTraces requires named: method.Name == "denomTraces"
+    call Precompile.DenomHash requires named: method.Name == "denomHash"
+    call Precompile.Allowance requires named: method.Name == "allowance"
+    // (b) with the transaction signer as origin, RunSetup's context / method / arguments, the frame's contract, the EVM's StateDB
+    call Precompile.Approve requires entry: origin == evm.Origin && ctx == rctx && method == m && args == rargs && isdyn(stateDB, *SDB) && dyn(stateDB, *SDB) == sdb
+    call Precompile.Revoke requires entry: origin == evm.Origin && ctx == rctx && method == m && args == rargs && isdyn(stateDB, *SDB) && dyn(stateDB, *SDB) == sdb
+    call Precompile.IncreaseAllowance requires entry: origin == evm.Origin && ctx == rctx && method == m && args == rargs && isdyn(stateDB, *SDB) && dyn(stateDB, *SDB) == sdb
+    call Precompile.DecreaseAllowance requires entry: origin == evm.Origin && ctx == rctx && method == m && args == rargs && isdyn(stateDB, *SDB) && dyn(stateDB, *SDB) == sdb
+    call Precompile.Transfer requires entry: origin == evm.Origin && ctx == rctx && method == m && args == rargs && contract == old(contract) && isdyn(stateDB, *SDB) && dyn(stateDB, *SDB) == sdb
+    call Precompile.DenomTrace requires entry: ctx == rctx && method == m && input == rargs
+    call Precompile.DenomTraces requires entry: ctx == rctx && method == m && input == rargs
+    call Precompile.DenomHash requires entry: ctx == rctx && method == m && input == rargs
+    call Precompile.Allowance requires entry: ctx == rctx && method == m && args == rargs
+    // (c) C05 / C04: no state-changing method runs in a read-only frame
+    call Precompile.Approve requires c05_writable: !readOnly
+    call Precompile.Revoke requires c05_writable: !readOnly
+    call Precompile.IncreaseAllowance requires c05_writable: !readOnly
+    call Precompile.DecreaseAllowance requires c05_writable: !readOnly
+    call Precompile.Transfer requires c05_writable: !readOnly
+    ensures setup_refused: !setup_ok ==> result.1 != nil && len(result.0) == 0 && cstate == old(cstate) && sdb_flushes == old(sdb_flushes) && contract.Gas == old(contract.Gas)
+            && g_kind == old(g_kind) && g_limit == old(g_limit) && sdb_delta == old(sdb_delta)
+    ensures c05_readonly: readOnly && setup_ok ==> !IcsIsTx(name)
+    ensures unknown_name: setup_ok && !IcsIsTx(name) && !IcsIsQuery(name) ==> result.1 != nil
+    ensures flushed_once: setup_ok ==> sdb_flushes == old(sdb_flushes) + 1
+    ensures gas_charged: result.1 == nil ==> contract.Gas == old(contract.Gas) - (gasw[meter] - gas0) && gasw[meter] - gas0 <= old(contract.Gas)
+    ensures out_of_gas: setup_ok && gasw[meter] - gas0 > old(contract.Gas) ==> result.1 != nil
+    ensures error_no_output: result.1 != nil ==> len(result.0) == 0 && contract.Gas == old(contract.Gas)
+    ensures contract_kept: contract.CallerAddress == old(contract.CallerAddress) && contract.Input == old(contract.Input) && contract.value == old(contract.value)
+    ensures query_frame: result.1 == nil && (name == "denomTrace" || name == "denomTraces" || name == "denomHash") ==> cstate == flushed && sdb_delta == old(sdb_delta) && g_kind == old(g_kind) && g_exp == old(g_exp) && g_limited == old(g_limited) && g_limit == old(g_limit) && g_ta == old(g_ta)
+    ensures c05_readonly_frame: readOnly && result.1 == nil && name != "allowance" ==> cstate == flushed && g_kind == old(g_kind) && g_limit == old(g_limit) && sdb_delta == old(sdb_delta)
+@*/
